@@ -8,7 +8,7 @@
    translator's claim (trusted base); the history runs of the harness are its dynamic check.
    Property theorems only. *)
 From Coq Require Import List String Bool.
-From Formula Require Import Syn.Parser Syn.Ast Sem.Eval Sem.Fields Conc.Interleave Conc.Footprint Conc.Threads.
+From Formula Require Import Gen.Effects Syn.Parser Syn.Ast Sem.Eval Sem.Fields Conc.Interleave Conc.Footprint Conc.Threads.
 Import ListNotations.
 
 (* the model side: parsing and evaluating are functions of their arguments *)
@@ -47,6 +47,17 @@ Proof.
          (conj parse_writes_no_global (conj fields_footprint eval_footprint))).
 Qed.
 
+(* the builtins (table entries reached through reflection) write nothing but what they allocate - no package
+   state, no state captured by a closure, no operand - and the only functions that read the environment are
+   the two clock builtins, the stated exceptions *)
+Theorem C08_builtins_keep_no_state :
+  forallb private_write (writes_of builtin_entry) = true /\
+  existsb tree_setter (reachable builtin_entry) = false /\
+  env_discipline = true.
+Proof.
+  exact (conj builtins_footprint (conj builtins_never_call_tree_setters environment_read_by_clock_builtins_once)).
+Qed.
+
 (* therefore: whatever other formulas were parsed, evaluated or analysed before or in between, each
    operation of a history yields what it yields alone from the initial state *)
 Theorem C08_history_independence : forall (val obs : Type) (ts : list (thread gloc val obs)) kinds sch s i,
@@ -57,4 +68,5 @@ Proof. exact history_independence. Qed.
 Print Assumptions C08_model_is_functional.
 Print Assumptions C08_tree_unchanged.
 Print Assumptions C08_no_hidden_state.
+Print Assumptions C08_builtins_keep_no_state.
 Print Assumptions C08_history_independence.
